@@ -57,7 +57,8 @@ func (check fieldConstraints) checkValue(v val.Value, t *meta.Type) error {
 			if member.Format().Single() != v.Format().Single() {
 				continue
 			}
-			if memberErr = check.checkMember(v, member); memberErr == nil {
+			// enum, bits and identityref members hold the names they declare
+			if memberErr = check.checkValue(v, member); memberErr == nil {
 				return nil
 			}
 		}
